@@ -18,8 +18,12 @@ import (
 
 // C41 run ("esdt"). The random seed is owned by the simulator: every issue step carries its seed.
 //
-//	pre    S[0]=ticker, I[0]=first suffix, I[1]=count   count consecutive identifiers TICKER-%06x (mod 2^24) are made pre-existing
-//	issue  T=caller (1..3), S[0]=ticker, I[0]=kind (0 fungible, 1 semi-fungible, 2 non-fungible), B[0]=seed
+//	pre    B[0]=ticker, I[0]=first suffix, I[1]=count   count consecutive identifiers TICKER-%06x (mod 2^24) are made pre-existing
+//	issue  T=caller (1..3), B[1]=ticker, I[0]=kind (0 fungible, 1 semi-fungible, 2 non-fungible), B[0]=seed
+//
+// Tickers are byte strings (hex in replay files): besides legal ones (3-10 characters A-Z / 0-9) the generator
+// produces tickers with arbitrary byte values at random positions and lengths around the limits; the contract may
+// refuse them, but whatever it accepts must yield a well-formed identifier. (Old replay files carried the ticker in S[0].)
 
 // nearTop: seeds (8-byte big-endian counters) whose candidate blake2b(userAddr(caller) || seed)[:3] is close to
 // ffffff; found by an offline search (about 25 million hashes), verified again at generation time.
@@ -47,15 +51,34 @@ func genEsdt(r *simkit.Rand) *simkit.Plan {
 	p.Knobs["base_issue"] = []int64{0, 50, 5000}[r.Intn(3)]
 	nCallers := r.Range(1, 3)
 	nTick := r.Range(1, 3)
-	tickers := make([]string, nTick)
+	tickers := make([][]byte, nTick)
 	const alpha = "ABCDEFGHIJKLMNOPQRSTUVWXYZ0123456789"
-	for i := range tickers {
-		n := []int{3, 3, 4, 6, 10, r.Range(3, 10)}[r.Intn(6)]
+	legal := func(n int) []byte {
 		b := make([]byte, n)
 		for j := range b {
 			b[j] = alpha[r.Intn(len(alpha))]
 		}
-		tickers[i] = string(b)
+		return b
+	}
+	for i := range tickers {
+		switch r.Weighted([]int{5, 3, 2, 1}) {
+		case 0: // legal
+			tickers[i] = legal([]int{3, 3, 4, 6, 10, r.Range(3, 10)}[r.Intn(6)])
+		case 1: // legal except for 1-2 bytes drawn from all 256 values
+			b := legal([]int{3, 4, 9, 10, r.Range(3, 10)}[r.Intn(5)])
+			for j, m := 0, r.Range(1, 2); j < m; j++ {
+				b[r.Intn(len(b))] = byte(r.Intn(256))
+			}
+			tickers[i] = b
+		case 2: // arbitrary bytes, lengths around the limits
+			tickers[i] = r.Bytes([]int{1, 2, 3, 3, 10, 10, 11, 12, r.Range(0, 14)}[r.Intn(9)])
+		default: // printable but outside the alphabet: lower case, punctuation, separator inside, too short / long
+			b := legal([]int{2, 3, 10, 11, r.Range(1, 13)}[r.Intn(5)])
+			if len(b) > 0 {
+				b[r.Intn(len(b))] = "abz-_ .@~"[r.Intn(9)]
+			}
+			tickers[i] = b
+		}
 	}
 	var lastSeed []byte
 	lastCaller := 1
@@ -95,23 +118,42 @@ func genEsdt(r *simkit.Rand) *simkit.Plan {
 			if cnt < 1 {
 				cnt = 1
 			}
-			p.Steps = append(p.Steps, simkit.Step{Op: "pre", T: -1, S: []string{ticker}, I: []int64{int64(cand), cnt}})
+			p.Steps = append(p.Steps, simkit.Step{Op: "pre", T: -1, B: []simkit.HexBytes{ticker}, I: []int64{int64(cand), cnt}})
 		}
-		p.Steps = append(p.Steps, simkit.Step{Op: "issue", T: caller, S: []string{ticker}, I: []int64{int64(r.Intn(3))}, B: []simkit.HexBytes{seed}})
+		p.Steps = append(p.Steps, simkit.Step{Op: "issue", T: caller, I: []int64{int64(r.Intn(3))}, B: []simkit.HexBytes{seed, ticker}})
 	}
 	return p
 }
 
-func wellFormed(id []byte, ticker string) bool {
-	if len(id) != len(ticker)+7 || string(id[:len(ticker)]) != ticker || id[len(ticker)] != '-' {
-		return false
+// wellFormed judges an identifier from the property text alone: TICKER-xxxxxx, where TICKER is 3 to 10 upper-case
+// ASCII letters or digits and xxxxxx are six lower-case hex digits. It returns the reason when it is not.
+func wellFormed(id []byte) string {
+	if len(id) < 7 || id[len(id)-7] != '-' {
+		return "no '-' followed by exactly six characters at the end"
 	}
-	for _, ch := range id[len(ticker)+1:] {
+	for _, ch := range id[len(id)-6:] {
 		if !(ch >= '0' && ch <= '9' || ch >= 'a' && ch <= 'f') {
-			return false
+			return fmt.Sprintf("suffix character %q is not a lower-case hex digit", ch)
 		}
 	}
-	return true
+	tick := id[:len(id)-7]
+	if len(tick) < 3 || len(tick) > 10 {
+		return fmt.Sprintf("ticker part has %d characters (3-10 allowed)", len(tick))
+	}
+	for _, ch := range tick {
+		if !(ch >= 'A' && ch <= 'Z' || ch >= '0' && ch <= '9') {
+			return fmt.Sprintf("ticker byte 0x%02x is not an upper-case ASCII letter or digit", ch)
+		}
+	}
+	return ""
+}
+
+// tickerOf reads the ticker of a step (B slot, or S[0] of old replay files).
+func tickerOf(st *simkit.Step, slot int) []byte {
+	if b := st.Bytes(slot); b != nil || len(st.S) == 0 {
+		return b
+	}
+	return []byte(st.Str(0))
 }
 
 func execEsdt(c *simkit.Ctx) bool {
@@ -126,11 +168,11 @@ func execEsdt(c *simkit.Ctx) bool {
 		st := &c.Plan.Steps[i]
 		c.CurStep = i
 		c.StepsDone++
-		ticker := st.Str(0)
 		switch st.Op {
 		case "pre":
+			ticker := tickerOf(st, 0)
 			start, cnt := uint32(st.Int(0, 0)), st.Int(1, 1)
-			rec, _ := e.marsh.Marshal(&systemSmartContracts.ESDTData{TokenName: []byte("preexisting"), TickerName: []byte(ticker), TokenType: []byte("FungibleESDT")})
+			rec, _ := e.marsh.Marshal(&systemSmartContracts.ESDTData{TokenName: []byte("preexisting"), TickerName: ticker, TokenType: []byte("FungibleESDT")})
 			for j := int64(0); j < cnt && j < 80; j++ {
 				id := fmt.Sprintf("%s-%06x", ticker, (start+uint32(j))&0xffffff)
 				if _, ok := esdtAcc.storage[id]; !ok {
@@ -138,6 +180,7 @@ func execEsdt(c *simkit.Ctx) bool {
 				}
 			}
 		case "issue":
+			ticker := tickerOf(st, 1)
 			callerAddr := userAddr(1 + ((st.T-1)%3+3)%3)
 			seed := st.Bytes(0)
 			e.ch.seed = append([]byte(nil), seed...)
@@ -162,7 +205,7 @@ func execEsdt(c *simkit.Ctx) bool {
 				}
 				return buf
 			}
-			callerBuf, tickerBuf := mk(callerAddr), mk([]byte(ticker))
+			callerBuf, tickerBuf := mk(callerAddr), mk(ticker)
 			fn := []string{"issue", "issueSemiFungible", "issueNonFungible"}[((st.Int(0, 0)%3)+3)%3]
 			args := [][]byte{[]byte("TokenName12"), tickerBuf}
 			if fn == "issue" {
@@ -174,7 +217,7 @@ func execEsdt(c *simkit.Ctx) bool {
 			}
 			res := e.callIn(in, true)
 			e.ch.nonce++
-			c.Eventf("%s caller=%d ticker=%s cand=%06x walk=%d rc=%s", fn, st.T, ticker, cand, walk, res.rc)
+			c.Eventf("%s caller=%d ticker=%q cand=%06x walk=%d rc=%s", fn, st.T, ticker, cand, walk, res.rc)
 			spareTouched := false
 			for _, buf := range [][]byte{callerBuf, tickerBuf} {
 				for _, ch := range buf[len(buf):cap(buf)] {
@@ -183,7 +226,7 @@ func execEsdt(c *simkit.Ctx) bool {
 					}
 				}
 			}
-			if !bytes.Equal(callerBuf, callerAddr) || !bytes.Equal(tickerBuf, []byte(ticker)) {
+			if !bytes.Equal(callerBuf, callerAddr) || !bytes.Equal(tickerBuf, ticker) {
 				c.Probe("arg_bytes_changed")
 			}
 			if spareTouched {
@@ -228,13 +271,20 @@ func execEsdt(c *simkit.Ctx) bool {
 				c.HarnessErr("successful %s left no identifier to observe", fn)
 				return false
 			}
+			if wellFormed(append(append([]byte{}, ticker...), "-000000"...)) != "" {
+				c.Probe("issue_accepted_for_illegal_ticker")
+			}
 			for _, id := range ids {
-				if !wellFormed(id, ticker) {
-					c.Violate("C41", "identifier-malformed", fn, "%s by caller %d with ticker %s (candidate %06x, %d consecutive identifiers taken) produced identifier %q, not %s-[0-9a-f]{6}", fn, st.T, ticker, cand, walk, id, ticker)
+				if why := wellFormed(id); why != "" {
+					c.Violate("C41", "identifier-malformed", fn, "%s by caller %d with ticker %q (candidate %06x, %d consecutive identifiers taken) produced identifier %q, not TICKER-xxxxxx: %s", fn, st.T, ticker, cand, walk, id, why)
+					break
+				}
+				if !bytes.HasPrefix(id, ticker) || len(id) != len(ticker)+7 {
+					c.Violate("C41", "identifier-malformed", fn, "%s by caller %d with ticker %q produced identifier %q whose ticker part is not the requested ticker", fn, st.T, ticker, id)
 					break
 				}
 				if before[string(id)] {
-					c.Violate("C41", "identifier-reused", fn, "%s by caller %d with ticker %s produced identifier %q which already existed", fn, st.T, ticker, id)
+					c.Violate("C41", "identifier-reused", fn, "%s by caller %d with ticker %q produced identifier %q which already existed", fn, st.T, ticker, id)
 					break
 				}
 			}
